@@ -16,6 +16,7 @@ import (
 	"math/rand"
 	"reflect"
 	"strings"
+	"sync"
 	"time"
 
 	grpcgun "github.com/yandex/pandora/components/guns/grpc/scenario"
@@ -1146,6 +1147,71 @@ func ammoDiff(a, b core.Ammo) string {
 	return ""
 }
 
+// concurrentLoads: several providers are created at the same time in one process (several pools,
+// or several engines). Each HCL load, running concurrently with the others, must still give
+// what the YAML rendering of the same description gives.
+func concurrentLoads(res *vkit.Result, rng *rand.Rand, rounds int) {
+	type item struct {
+		hp, yp string
+		want   *sconfig.AmmoConfig
+		hcl    string
+	}
+	var items []item
+	for i := 0; len(items) < 24 && i < 400; i++ {
+		d := genDesc(rng, 15, true)
+		base := fmt.Sprintf("/c16/conc-%d", i)
+		hclText, yamlText := d.HCL(rng), d.YAML()
+		_ = vkit.WriteMemAt(base+".hcl", []byte(hclText))
+		_ = vkit.WriteMemAt(base+".yaml", []byte(yamlText))
+		hc, herr := sconfig.ReadAmmoConfig(vkit.Fs(), base+".hcl")
+		yc, yerr := sconfig.ReadAmmoConfig(vkit.Fs(), base+".yaml")
+		if herr != nil || yerr != nil || vkit.Diff(hc, yc) != "" {
+			vkit.RemoveMem(base + ".hcl")
+			vkit.RemoveMem(base + ".yaml")
+			continue // sequential disagreement is reported by the main loop
+		}
+		items = append(items, item{base + ".hcl", base + ".yaml", yc, hclText})
+	}
+	defer func() {
+		for _, it := range items {
+			vkit.RemoveMem(it.hp)
+			vkit.RemoveMem(it.yp)
+		}
+	}()
+	var mu sync.Mutex
+	reported := false
+	for r := 0; r < rounds && !reported; r++ {
+		var wg sync.WaitGroup
+		start := make(chan struct{})
+		for _, it := range items {
+			wg.Add(1)
+			go func(it item) {
+				defer wg.Done()
+				<-start
+				hc, err := sconfig.ReadAmmoConfig(vkit.Fs(), it.hp)
+				df := ""
+				if err != nil {
+					df = "error: " + err.Error()
+				} else {
+					df = vkit.Diff(hc, it.want)
+				}
+				if df != "" {
+					mu.Lock()
+					if !reported {
+						reported = true
+						res.Violate("C16/concurrent-loads/config-differs", fmt.Sprintf("an HCL description loaded while %d other HCL descriptions were being loaded differs from its YAML rendering (sequentially they agree): %s", len(items)-1, df), map[string]any{"hcl": it.hcl, "round": r})
+					}
+					mu.Unlock()
+				}
+			}(it)
+		}
+		close(start)
+		wg.Wait()
+		res.Count("concurrent_load_rounds", 1)
+	}
+	res.Eval("concurrent-loads", len(items) >= 2)
+}
+
 func main() {
 	vkit.Fs()
 	res := vkit.NewResult("generated scenario descriptions (0–3 variable sources of every kind, 1–4 HTTP requests and/or 1–3 gRPC calls with every optional field present/absent, every processor kind, 1–3 weighted scenarios with multiplicities and sleeps; strings drawn from a pool of unicode, quotes, backslashes, YAML-significant scalars, blanks, multi-line and HCL-template-significant values) rendered to YAML and to HCL (plain or through locals/merge/zipmap/concat/reverse/flatten/lookup/element with equal value); both decoded by the real front-ends and providers. distinct = distinct (HCL, YAML) text pairs; non-trivial = accepted by at least one front-end")
@@ -1161,6 +1227,7 @@ func main() {
 		d := genDesc(rng, hostile, true)
 		runDesc(res, d, rng, i)
 	}
+	concurrentLoads(res, rng, vkit.N(150, 3000))
 	if res.Counter("both_accepted") < int64(n/3) {
 		res.Inconclusive(true, "only %d of %d descriptions were accepted by both front-ends", res.Counter("both_accepted"), n)
 	}
